@@ -29,6 +29,16 @@ def run(tier, seed):
         cov['states'] += sum(r['states'] for r in out['runs'])
         cov['transitions'] += sum(r['transitions'] for r in out['runs'])
         cov['traces_validated_against_impl'] += out['n']
+        # gradients of likelihoods with fixed parameters after fix / re-fix / release histories: the shared FixParams run
+        # (see C08), judged on the gradient entries of the likelihood-level and controller-level adapters
+        from . import check_c08
+        from .cache import cached
+        fx = cached('fixparams', tier, seed, lambda: check_c08._compute(tier, seed))
+        for fails, cnt in fx['results']:
+            v.failures([f for f in fails if f['clause'] in ('SubstitutionOK', 'Evaluable') and
+                        any(c in str(f['features']) for c in ('class_LogLikelihood', 'class_ProblemModellingController'))
+                        and ('s1' in f['manifestation'] or f['clause'] == 'Evaluable')])
+        cov['tlc_runs'] = cov['tlc_runs'] + fx['runs']
         cov['rule'] += ('; plus every configuration of module LogLik (individual likelihoods, all error kinds) judged on '
                         'GradIsDecl / SensSwitch / FiniteAgree; FiniteAgree = at points with one parameter set to 0 or a '
                         'negative number evaluateS1 reports a finite score iff plain evaluation does, and the same one')
